@@ -157,10 +157,11 @@ func (t *Trailer) SetTrailers(trailers []byte) (err error) {
 			i = len(trailers)
 		}
 		trailerKey := trailers[:i]
-		for len(trailerKey) > 0 && trailerKey[0] == ' ' {
+		// optional whitespace around a list element is SP or HTAB
+		for len(trailerKey) > 0 && (trailerKey[0] == ' ' || trailerKey[0] == '\t') {
 			trailerKey = trailerKey[1:]
 		}
-		for len(trailerKey) > 0 && trailerKey[len(trailerKey)-1] == ' ' {
+		for len(trailerKey) > 0 && (trailerKey[len(trailerKey)-1] == ' ' || trailerKey[len(trailerKey)-1] == '\t') {
 			trailerKey = trailerKey[:len(trailerKey)-1]
 		}
 
